@@ -336,7 +336,9 @@ class C08(core.PropertyCheck):
         (":ref:`{f}lbl`", None), (":ref:`Explicit text <{f}lbl>`", None), (":ref:`{f}other  lbl`", None), (":ref:`{f}missing`", None),
         (":method:`{f}db.coll.find()`", None), (":method:`{f}db.coll.find(query, projection)`", None), (":method:`the finder <{f}db.coll.find()>`", None),
         (":method:`{f}db.coll.nothing()`", None), (":setting:`{f}net.port`", None), (":dbcommand:`{f}find`", None), (":dbcommand:`{f}dbcmd.find`", None),
-        (":option:`{f}mongod --port`", None), (":option:`{f}--port`", None), (":binary:`{f}mongod`", None), (":binary:`{f}bin.mongod`", None),
+        (":option:`{f}mongod --port`", None), (":option:`{f}--port`", None),
+        # whitespace variants between program and option (double space, tab, wrapped across source lines)
+        (":option:`{f}mongod  --port`", None), (":option:`{f}mongod\t--port`", None), (":option:`{f}mongod\n--port`", None), (":binary:`{f}mongod`", None), (":binary:`{f}bin.mongod`", None),
     ]
 
     def gen_text(self, rng):
@@ -599,6 +601,11 @@ class C08(core.PropertyCheck):
             for o, r in zip(orig, p["refs"]):
                 if (o["domain"], o["role"]) == ("std", "doc"):
                     continue
+                if case["kind"] == "text" and o["role"] == "option" and re.sub(r"\s+", "", o["target"]) == "mongod--port":
+                    # independent of the parse-time role handler: "<program> <option>" names the option of that program,
+                    # whatever whitespace separates the two (double space, tab, a line break inside the role text)
+                    return (f"program-qualified option reference {o['target']!r} (line {o['rid']}) was not normalised to 'mongod.--port': "
+                            "a defined option is then reported as not found")
                 key = norm(f"{o['domain']}:{o['role']}:{o['target']}")
                 local = defs.get(key, [])
                 ext = []
